@@ -1,3 +1,184 @@
+/-
+C10 — A subscription delivers exactly the requested range.
+Theorems about `Liftbridge.Subscribe` (start/stop resolution incl. timestamp lookups, the
+forward committed reader observed by draining, the reverse reader, stop tests, endings) on
+EVERY log satisfying `InvC` — dense, compacted-sparse or retention-trimmed, any number of
+segments, any HW position — and every start × stop × direction combination.
+`TsMono`: message timestamps do not decrease along the log (they are assigned by the leader's
+clock at append time); the timestamp lookups are binary searches and mean nothing otherwise.
+-/
 import Liftbridge.Model.Subscribe
+import Liftbridge.Proofs.Compact
+import Liftbridge.Proofs.Subscribe
+
 namespace Liftbridge.Props.C10
+open Liftbridge Liftbridge.Log Liftbridge.Log.CLog Liftbridge.Subscribe
+open Liftbridge.Proofs.Compact Liftbridge.Proofs.Subscribe
+
+-- Some hypotheses of the statements below turn out not to be needed (`hfwd` for the drain
+-- theorems: `drain` never looks at the direction; `hcase` for `create_forward`; `hhw` for
+-- `create_reverse`); the statements are kept as specified.
+set_option linter.unusedVariables false
+
+/-- Timestamps are non-decreasing along the log. -/
+def TsMono (l : CLog) : Prop := l.abs.Pairwise (fun a b => a.ts ≤ b.ts)
+
+/-- The high watermark names a retained record (true whenever anything is committed: the HW
+message survives compaction, `C08.hw_record_survives`) or nothing is committed. -/
+def HwOk (l : CLog) : Prop := l.hw = -1 ∨ ∃ r ∈ l.abs, r.offset = l.hw
+
+/-! ### Position resolution -/
+
+/-- FINDING (`start-timestamp-tie-across-segments`): as stated for every log with non-decreasing
+timestamps — start timestamp: the resolved offset splits the log exactly at the timestamp — the
+retained messages at or after it are those with `ts ≥ t` — and the lookup never fails. -/
+def start_timestamp_range_asStated : Prop :=
+  ∀ (l : CLog) (t : Int), InvC l → TsMono l →
+    ∃ s, earliestAfterTs l t = .ok s ∧ ∀ r ∈ l.abs, (s ≤ r.offset ↔ t ≤ r.ts)
+
+/-- It is false: the segment search picks the LAST segment whose first timestamp is `≤ t`
+(`entry.Timestamp > timestamp`), so when that segment starts with a message stamped exactly `t`
+and an earlier segment also holds a message stamped `t`, the earlier one is skipped
+(two segments `[(0, ts 5)]`, `[(1, ts 5)]`, `t = 5`: resolves to offset 1). -/
+theorem start_timestamp_range_asStated_false : ¬ start_timestamp_range_asStated := by
+  intro hA
+  obtain ⟨l, t, h, hm, hn⟩ := Witness.start_ts_witness
+  exact hn (hA l t h hm)
+
+/-- It holds when no segment starts with a message stamped `t` that is preceded by
+another message stamped `t` (ties elsewhere, an empty last segment and the empty log are fine). -/
+theorem start_timestamp_range_partial (l : CLog) (t : Int) (h : InvC l) (hm : TsMono l)
+    (htie : ∀ s ∈ l.segs, ∀ r0, s.recs.head? = some r0 → r0.ts = t →
+      ∀ r ∈ l.abs, r.ts = t → r0.offset ≤ r.offset) :
+    ∃ s, earliestAfterTs l t = .ok s ∧ ∀ r ∈ l.abs, (s ≤ r.offset ↔ t ≤ r.ts) :=
+  earliestAfterTs_spec l t h hm htie
+
+/-- … and that hypothesis is exactly what is needed. -/
+theorem start_timestamp_range_iff (l : CLog) (t : Int) (h : InvC l) (hm : TsMono l) :
+    (∃ s, earliestAfterTs l t = .ok s ∧ ∀ r ∈ l.abs, (s ≤ r.offset ↔ t ≤ r.ts)) ↔
+    (∀ s ∈ l.segs, ∀ r0, s.recs.head? = some r0 → r0.ts = t →
+      ∀ r ∈ l.abs, r.ts = t → r0.offset ≤ r.offset) :=
+  ⟨earliestAfterTs_tie_needed l t h hm, earliestAfterTs_spec l t h hm⟩
+
+/-- In particular it holds for every `t` when timestamps strictly increase along the log. -/
+theorem start_timestamp_range_strict (l : CLog) (t : Int) (h : InvC l)
+    (hstrict : l.abs.Pairwise (fun a b => a.ts < b.ts)) :
+    ∃ s, earliestAfterTs l t = .ok s ∧ ∀ r ∈ l.abs, (s ≤ r.offset ↔ t ≤ r.ts) :=
+  earliestAfterTs_spec l t h (hstrict.imp (fun hab => Int.le_of_lt hab)) (tie_of_strict hstrict t)
+
+/-- Stop timestamp: when some retained message has `ts ≤ t`, the resolved offset is the offset
+of a retained message with `ts ≤ t` and the messages at or before it are exactly those. -/
+theorem stop_timestamp_range (l : CLog) (t : Int) (h : InvC l) (hm : TsMono l)
+    (hex : ∃ r ∈ l.abs, r.ts ≤ t) :
+    ∃ s, latestBeforeTs l t = .ok s ∧ (∃ r ∈ l.abs, r.offset = s) ∧
+      ∀ r ∈ l.abs, (r.offset ≤ s ↔ r.ts ≤ t) :=
+  latestBeforeTs_spec l t h hm hex
+
+/-- … and when every retained message is later than `t` (or the log is empty) the stop
+position is refused. -/
+theorem stop_timestamp_before_start (l : CLog) (t : Int) (h : InvC l) (hm : TsMono l)
+    (hnone : ∀ r ∈ l.abs, t < r.ts) : ∃ e, latestBeforeTs l t = .err e :=
+  latestBeforeTs_refused l t h hm hnone
+
+/-- Earliest / latest / new-only / explicit offsets resolve as documented (negative → 0). -/
+theorem start_positions (l : CLog) :
+    startOffset l .earliest = .ok (if l.oldest < 0 then 0 else l.oldest) ∧
+    startOffset l .latest = .ok (if l.newest < 0 then 0 else l.newest) ∧
+    startOffset l .newOnly = .ok (if l.newest + 1 < 0 then 0 else l.newest + 1) ∧
+    ∀ o, startOffset l (.offset o) = .ok (if o < 0 then 0 else o) :=
+  ⟨rfl, rfl, rfl, fun _ => rfl⟩
+
+/-! ### Forward subscriptions -/
+
+/-- What a forward subscription positioned at `next` with stop offset `stop` must deliver from
+log `l`: the retained committed records from `next` up to the stop offset. -/
+def fwdRange (l : CLog) (next stop : Int) : List Rec :=
+  l.abs.filter (fun r => next ≤ r.offset ∧ r.offset ≤ l.hw ∧ (stop = waitForNew ∨ r.offset ≤ stop))
+
+/-- A drain of a live forward subscription delivers exactly the requested range — every
+retained committed message in it, once, in offset order — and nothing else. -/
+theorem drain_delivers_range (l : CLog) (s : Sub) (h : InvC l) (hhw : HwOk l)
+    (hlive : s.ended = false) (hfwd : s.reverse = false) (hnext : 0 ≤ s.nextOff) :
+    (drain l s).1 = fwdRange l s.nextOff s.stop :=
+  drain_delivers l s h hhw hlive hnext
+
+/-- The ending of a drain: the stop status exactly when a committed message at or beyond the
+stop offset exists; otherwise the end of a read-only partition; otherwise it keeps waiting. -/
+theorem drain_ending (l : CLog) (s : Sub) (h : InvC l) (hhw : HwOk l)
+    (hlive : s.ended = false) (hfwd : s.reverse = false) (hnext : 0 ≤ s.nextOff) :
+    (drain l s).2.1 =
+      (if s.stop ≠ waitForNew ∧ ∃ r ∈ l.abs, s.nextOff ≤ r.offset ∧ r.offset ≤ l.hw ∧ s.stop ≤ r.offset
+       then Ending.status "ResourceExhausted:stop"
+       else if l.readonly = true ∧ l.hw = l.newest then Ending.status "ResourceExhausted:readonly"
+       else Ending.waiting) :=
+  drain_ending' l s h hhw hlive hnext
+
+/-- After a drain that keeps waiting the subscription stands right behind what it delivered, so
+successive drains (after appends / HW advances) deliver each message exactly once, in order. -/
+theorem drain_advances (l : CLog) (s : Sub) (h : InvC l) (hhw : HwOk l)
+    (hlive : s.ended = false) (hfwd : s.reverse = false) (hnext : 0 ≤ s.nextOff)
+    (hw : (drain l s).2.1 = Ending.waiting) :
+    (drain l s).2.2.ended = false ∧ (drain l s).2.2.stop = s.stop ∧ s.nextOff ≤ (drain l s).2.2.nextOff ∧
+    (∀ r ∈ (drain l s).1, r.offset < (drain l s).2.2.nextOff) ∧
+    (∀ r ∈ l.abs, (drain l s).2.2.nextOff ≤ r.offset → r.offset ≤ l.hw →
+        (s.stop = waitForNew ∨ r.offset ≤ s.stop) → False) :=
+  drain_advances' l s h hhw hlive hnext hw
+
+/-- Creation of a forward subscription whose start is committed (`start ≤ hw`) or beyond the end
+of the log (`start > newest`: documented — it waits for the next new message) positions it at
+the requested start, resp. behind the HW. -/
+theorem create_forward (l : CLog) (req : Req) (start stop : Int) (h : InvC l) (hhw : HwOk l)
+    (hfwd : req.reverse = false) (hs : startOffset l req.start = .ok start)
+    (hp : stopOffset l false req.stop = .ok (some stop))
+    (hvalid : stop = waitForNew ∨ start ≤ stop)
+    (hcase : start ≤ l.hw ∨ l.newest < start) :
+    ∃ d e sub, create l req = .live d e sub ∧
+      d = fwdRange l (if start ≤ l.hw ∧ l.oldest ≠ -1 then start else l.hw + 1) stop :=
+  create_forward' l req start stop h hhw hfwd hs hp hvalid
+
+/-- A stop position before the start position is refused (forward); after it (reverse). -/
+theorem create_refuses_inverted (l : CLog) (req : Req) (start stop : Int)
+    (hs : startOffset l req.start = .ok start)
+    (hp : stopOffset l req.reverse req.stop = .ok (some stop)) (hne : stop ≠ waitForNew)
+    (hinv : if req.reverse then start < stop else stop < start) :
+    create l req = .refused "InvalidArgument:stop-start" :=
+  create_refuses_inverted' l req start stop hs hp hne hinv
+
+/-- KNOWN FINDING (`start-in-uncommitted-delivers-below-start`): as stated for every start the
+subscription would never deliver below the requested start offset. -/
+def never_below_start_asStated : Prop :=
+  ∀ (l l' : CLog) (req : Req) (start : Int) d e sub, InvC l → InvC l' → req.reverse = false →
+    startOffset l req.start = .ok start → create l req = .live d e sub →
+    ∀ r ∈ (drain l' sub).1, start ≤ r.offset
+
+/-- It is false: a start in the uncommitted region (above the HW, at or below the newest offset)
+resumes at the old HW + 1 once the HW advances. -/
+theorem never_below_start_asStated_false : ¬ never_below_start_asStated := by
+  intro hA
+  obtain ⟨l, l', req, start, d, e, sub, h, h', hfwd, hs, hc, r, hr, hn⟩ := Witness.never_below_witness
+  exact hn (hA l l' req start d e sub h h' hfwd hs hc r hr)
+
+/-- It holds whenever the start is committed or beyond the end of the log… -/
+theorem never_below_start_partial (l l' : CLog) (req : Req) (start : Int) (d : List Rec) (e : Ending)
+    (sub : Sub) (h : InvC l) (h' : InvC l') (hhw : HwOk l) (hhw' : HwOk l') (hfwd : req.reverse = false)
+    (hs : startOffset l req.start = .ok start) (hc : create l req = .live d e sub)
+    (hcase : start ≤ l.hw ∧ l.oldest ≠ -1) :
+    ∀ r ∈ (drain l' sub).1, start ≤ r.offset :=
+  never_below_start' l l' req start d e sub h h' hhw hhw' hfwd hs hc hcase
+
+/-! ### Reverse subscriptions -/
+
+/-- A reverse subscription delivers exactly the retained committed messages from the start
+(clamped to the HW) down to the stop offset, newest first, then ends. -/
+theorem create_reverse (l : CLog) (req : Req) (start stop : Int) (h : InvC l) (hhw : HwOk l)
+    (hne : l.hw ≠ -1) (hle : l.hw ≤ l.newest)
+    (hrev : req.reverse = true) (hs : startOffset l req.start = .ok start)
+    (hp : stopOffset l true req.stop = .ok (some stop))
+    (hvalid : stop = waitForNew ∨ stop ≤ start) :
+    ∃ e sub, create l req =
+      .live ((l.abs.filter (fun r => r.offset ≤ (if start > l.hw then l.hw else start) ∧
+                                      (stop = waitForNew ∨ stop ≤ r.offset))).reverse) (.status e) sub ∧
+      (e = "ResourceExhausted:stop" ∨ e = "ResourceExhausted:begin") :=
+  create_reverse' l req start stop h hne hle hrev hs hp hvalid
+
 end Liftbridge.Props.C10
